@@ -48,10 +48,13 @@ def path_text(p):
     return '.'.join(p)
 
 
-def make_ref(rng, tpath, docname, form_cross, labels):
+def make_ref(rng, tpath, docname, form_cross, labels, docid=None):
     dotted = any('.' in k for k in tpath)
     if form_cross:
         pat = {'name': docname}
+        if docid is not None and rng.random() < 0.4:
+            pat = {'id': docid}
+            labels.add('addr:cross-by-id')
         if rng.random() < 0.5:
             labels.add('addr:cross-$match-$path')
             return {'$match': pat, '$path': list(tpath) if dotted or rng.random() < 0.4 else path_text(tpath)}
@@ -71,6 +74,7 @@ def gen_case(rng, i, tier):
     for k in range(ndocs):
         d = gen.tree(rng, 3, 3, nulls=(rng.random() < 0.35), root='map', keys=KEYS)
         d['name'] = 'n%d' % k
+        d['id'] = [1, '1', 1.5, True, 'true', '1.5', 2][(k * 3 + rng.randrange(7)) % 7] if ndocs > 1 else k
         d['tpl'] = gen.tree(rng, 2, 3, nulls=False, root='map', keys=KEYS)
         docs.append(d)
     hd = rng.randrange(ndocs)                       # host document
@@ -105,7 +109,9 @@ def gen_case(rng, i, tier):
     form = rng.choice(['map-merge', 'map-merge', 'str-merge', 'map-replace', 'str-replace', 'list-merge', 'list-replace'])
     if form in ('str-merge', 'str-replace') and (cross or any('.' in k for k in tpath)):
         form = 'map-' + form.split('-')[1]
-    ref = make_ref(rng, tpath, docs[td]['name'], cross, labels)
+    uniq = [d_['id'] for d_ in docs]
+    docid = docs[td]['id'] if sum(1 for x in uniq if type(x) is type(docs[td]['id']) and x == docs[td]['id']) == 1 else None
+    ref = make_ref(rng, tpath, docs[td]['name'], cross, labels, docid)
     if form.startswith('str'):
         ref = path_text(tpath) if rng.random() < 0.7 else '[' + ', '.join(tpath) + ']'
         labels.add('addr:string-form')
